@@ -407,6 +407,55 @@ def _ctoridx(ctx, cfg, prog, mod):
     ctx.floor('DelaunayTriangulation aggregates', 4, n_agg, cfg)
 
 
+IDX_NEW = 'core::collections::spatial_hash_grid::HashGridIndex::new'
+DUP_TOL = 'core::delaunay_triangulation::default_duplicate_tolerance'
+
+
+def _idxcell(ctx, cfg, prog, mod):
+    """IDXCELL: the duplicate query visits only the 3^D grid cells around a point, so an index that answers it must have
+    cells at least as wide as the duplicate tolerance.  Every construction of a VertexKey-keyed HashGridIndex (the
+    insertion-time index; the usize-keyed grid of batch de-duplication has its own tolerance) takes a cell size whose
+    backward slice - through closure captures and into crate callees - contains `default_duplicate_tolerance()`; the
+    constructor is never passed on as a function value (`opt.map(HashGridIndex::new)` hides the cell size).
+    Necessary condition only: that the tolerance is a lower bound of the cell size is arithmetic."""
+    import valueflow
+    ctx.rule('IDXCELL', 'the cell size of every insertion-time duplicate index depends on the duplicate tolerance')
+    n = 0
+    for q, b in sorted(prog.bodies.items()):
+        if '::tests::' in q or not b.file.startswith('src/'):
+            continue
+        for bb, t in b.calls():
+            name = t.resolved or t.callee or ''
+            for o in t.args:
+                if o.kind == 'k' and isinstance(o.const, dict) and str(o.const.get('fn', '')).split('<')[0].endswith('HashGridIndex::new'):
+                    n += 1
+                    ctx.ob('IDXCELL', '%s|fn-item' % (b.root or q), cfg, False,
+                           'HashGridIndex::new is passed on as a function value: the cell size of the index it builds is whatever '
+                           'the caller supplies (an epsilon-dedup grid finer than the duplicate tolerance makes near-duplicates '
+                           'invisible to the 3^D neighbourhood query)', site='%s:%d' % (b.file, t.line))
+            if name != IDX_NEW or not t.args or t.dest is None or not t.dest.is_local():
+                continue
+            ty = b.locals[t.dest.local].replace(' ', '')
+            if ty.endswith(',usize>'):
+                continue                      # batch de-duplication grid (keyed by input position)
+            n += 1
+            a = t.args[0]
+            ok = False
+            if a.place is not None:
+                leaves = valueflow.deep_sources_up(prog, mod, b, a.place.local, depth=3)
+                ok = any(x[0] == 'call' and ((x[1].resolved or x[1].callee) == DUP_TOL or
+                                             (x[1].callee or x[1].resolved or '').rsplit('::', 1)[-1] == 'default_tolerance')
+                         for x in leaves) or \
+                    any(x[0] == 'const' and ('default_tolerance' in str(x[1]) or 'default_duplicate_tolerance' in str(x[1]) or
+                                             '1.0E-10' in str(x[1]) or '1e-10' in str(x[1]).lower()) for x in leaves)
+            ctx.ob('IDXCELL', '%s|new' % (b.root or q), cfg, ok,
+                   'cell size %s' % ('depends on the duplicate tolerance' if ok else
+                                     'does not depend on the duplicate tolerance (default_duplicate_tolerance() / default_tolerance()): cells narrower than the tolerance make a '
+                                     'near-duplicate in the next-but-one cell invisible to the duplicate query'),
+                   site='%s:%d' % (b.file, t.line))
+    ctx.floor('constructions of an insertion-time duplicate index', 3, n, cfg)
+
+
 def _seedall(ctx, cfg, prog, mod):
     """Bulk (re)seeding sites: a body that calls both Tds::vertices and HashGridIndex::insert_vertex in one loop."""
     import loops
@@ -488,6 +537,7 @@ def run(ctx):
         _seedall(ctx, cfg, prog, mod)
         _floatkey(ctx, cfg, prog)
         _ctoridx(ctx, cfg, prog, mod)
+        _idxcell(ctx, cfg, prog, mod)
         res = pair.Resources(prog, mod)
         E = dt_entries(prog, res)
         ctx.floor('exported &mut DelaunayTriangulation operations', 14, len(E), cfg)
